@@ -52,6 +52,23 @@ Theorem plain_string_literal : forall body rest : bytes, Forall (fun c => plain_
   quoted_string (34%N :: body ++ 34%N :: rest) = Ok (34%N :: body ++ [34%N]) rest.
 Proof. exact quoted_string_plain. Qed.
 
+(* ... and with every supported escape: a body made of maximal runs of ordinary bytes and of backslash
+   pairs (apostrophe, double quote, backslash, n r t 0 x u) runs to the first unescaped double quote *)
+Theorem string_literal_with_escapes : forall body rest : bytes, sbody body -> utf8_valid (34%N :: body ++ [34%N]) = true ->
+  quoted_string (34%N :: body ++ 34%N :: rest) = Ok (34%N :: body ++ [34%N]) rest.
+Proof. exact quoted_string_escapes. Qed.
+Example a_literal_with_escapes_and_delimiters :
+  sbody (b ")]}" ++ b "\""" ++ b " /* {[( " ++ b "\\" ++ b "\n" ++ b "\x41\u{7D}\'\0\r\t" ++ b "end").
+Proof.
+  apply (sb_run (b ")]}")); [discriminate|repeat constructor|right; eexists; reflexivity|].
+  apply sb_esc; [reflexivity|]. apply (sb_run (b " /* {[( ")); [discriminate|repeat constructor|right; eexists; reflexivity|].
+  apply sb_esc; [reflexivity|]. apply sb_esc; [reflexivity|]. apply sb_esc; [reflexivity|].
+  apply (sb_run (b "41")); [discriminate|repeat constructor|right; eexists; reflexivity|].
+  apply sb_esc; [reflexivity|]. apply (sb_run (b "{7D}")); [discriminate|repeat constructor|right; eexists; reflexivity|].
+  apply sb_esc; [reflexivity|]. apply sb_esc; [reflexivity|]. apply sb_esc; [reflexivity|]. apply sb_esc; [reflexivity|].
+  rewrite <- (app_nil_r (b "end")). apply sb_run; [discriminate|repeat constructor|now left|apply sb_nil].
+Qed.
+
 (* fully syntactic instances: a name is a letter or underscore followed by letters, digits and
    underscores, and ends at the first other byte; a chain of members a.b.c is taken whole when what
    follows neither continues the last name nor starts a postfix form -- e.g. before a space, `<`,
@@ -146,6 +163,8 @@ Redirect "assumptions/C05.paren_scan_complete" Print Assumptions paren_scan_comp
 Redirect "assumptions/C05.chain_stops" Print Assumptions chain_stops.
 Redirect "assumptions/C05.comments_hide_delimiters" Print Assumptions comments_hide_delimiters.
 Redirect "assumptions/C05.plain_string_literal" Print Assumptions plain_string_literal.
+Redirect "assumptions/C05.string_literal_with_escapes" Print Assumptions string_literal_with_escapes.
+Redirect "assumptions/C05.a_literal_with_escapes_and_delimiters" Print Assumptions a_literal_with_escapes_and_delimiters.
 Redirect "assumptions/C05.name_taken_whole" Print Assumptions name_taken_whole.
 Redirect "assumptions/C05.member_chain_taken_whole" Print Assumptions member_chain_taken_whole.
 Redirect "assumptions/C05.user_name_then_full_stop" Print Assumptions user_name_then_full_stop.
